@@ -549,8 +549,8 @@ func r095(c *an.Ctx, rule string) {
 		mu, ok := in.(*ssa.MapUpdate)
 		return ok && strings.Contains(mu.Map.Type().String(), "CollectionChange")
 	}
-	isRemove := func(in ssa.Instruction) bool { return an.IsCallTo(in, "(*container/list.List).Remove") }
-	isPush := func(in ssa.Instruction) bool { return an.IsCallTo(in, "(*container/list.List).PushBack") }
+	isRemove := func(in ssa.Instruction) bool { return an.IsCallToDeep(in, "(*container/list.List).Remove") }
+	isPush := func(in ssa.Instruction) bool { return an.IsCallToDeep(in, "(*container/list.List).PushBack") }
 	isComm := func(in ssa.Instruction) bool {
 		switch x := in.(type) {
 		case *ssa.Select:
